@@ -38,7 +38,7 @@ def check(run):
                     sc.exchange(S.partial_reversal(receipt, cur, pre - min(pre, final), tok),
                                 [S.status_info({0x27: 0, 0x04: 1, 0x0B: 2, 0x0C: 3, 0x0D: 4, 0x29: 5}), S.intermediate(),
                                  S.status_info({0x27: 0, 0x04: amount, 0x0B: trace, 0x0C: time, 0x0D: date, 0x29: tid}), S.completion()])
-                    sc.exp_results.append("Ok:tid=%d,amount=%d,trace=%d,date=%04d,time=%06d" % (tid, amount, trace, date, time))
+                    sc.exp_results.append("Ok:tid=%08d,amount=%d,trace=%d,date=%04d,time=%06d" % (tid, amount, trace, date, time))
                     scs.append(sc)
     # long reference tokens: the TLV objects around the token (1F63 in E9 in the 06 container) pass the 127/128 and 255/256
     # length-form switches (round-3 seeded change C08-tlv-128-short-form)
@@ -54,7 +54,7 @@ def check(run):
         sc.exp_results.append("Ok")
         sc.ops.append("commit:%s:%d" % (tok.encode().hex(), final))
         sc.exchange(S.partial_reversal(receipt, cur, pre - min(pre, final), tok), [S.status_info({0x27: 0, 0x04: 7, 0x0B: 8, 0x0C: 9, 0x0D: 10, 0x29: 11}), S.completion()])
-        sc.exp_results.append("Ok:tid=11,amount=7,trace=8,date=0010,time=000009")
+        sc.exp_results.append("Ok:tid=00000011,amount=7,trace=8,date=0010,time=000009")
         scs.append(sc)
     cases, mo, io = run_scenarios(run, scs, "c08")
     diffs = judge(run, scs, cases, mo, io,
